@@ -14,11 +14,17 @@ import (
 var libUsages = []uint32{1, 2, 3, 6, 7, 8, 9, 11, 13, 17, 22, 23, 24, 25, 56}
 var edgeUsages = []uint32{127, 128, 255, 256, 1024, 1 << 31}
 
+// usages are taken in turn (starting at a seed-dependent offset), so that every stream meets every usage of the set
+// for every etype instead of leaving a usage to chance
+var usageTurn = -1
+
 func pickUsage(c *Ctx) uint32 {
-	if c.R.Intn(4) == 0 {
-		return edgeUsages[c.R.Intn(len(edgeUsages))]
+	all := append(append([]uint32{}, libUsages...), edgeUsages...)
+	if usageTurn < 0 {
+		usageTurn = c.R.Intn(len(all))
 	}
-	return libUsages[c.R.Intn(len(libUsages))]
+	usageTurn++
+	return all[usageTurn%len(all)]
 }
 
 // rc4Alias maps a usage to its RFC 4757 message type
@@ -315,7 +321,12 @@ func c07(c *Ctx) {
 			}
 			ver("other-key", randKey(c, et).KeyValue, data, sum, usage, false, true)
 			for _, u2 := range append(append([]uint32{}, libUsages...), edgeUsages...) {
-				if u2 == usage || (et == 23 && rc4Alias(u2) == rc4Alias(usage)) {
+				if et == 23 && u2 != usage && rc4Alias(u2) == rc4Alias(usage) {
+					// RFC 4757 gives these usages one message type: the checksum is the same value
+					ver("alias-usage", key.KeyValue, data, sum, u2, true, true)
+					continue
+				}
+				if u2 == usage {
 					continue
 				}
 				ver("other-usage", key.KeyValue, data, sum, u2, false, c.R.Intn(6) == 0)
